@@ -121,3 +121,30 @@ func H_C08_stable_names() {
 		verifAssert(f.imports[p0].name == q0, "and the import table still declares it under that name")
 	}
 }
+
+// names handed out while rendering a snippet with RenderWithFile are the File's names
+func H_C08_snippet_then_file() {
+	impSummaries()
+	canonicalMapOrder()
+	f := NewFile("p")
+	f.NoFormat = true
+	p0, p1 := leadPath(0), leadPath(1)
+	if nondetBool("anon_first") {
+		f.Anon(p0)
+	}
+	w := &bytes.Buffer{}
+	err := Qual(p0, "X").Call().RenderWithFile(w, f)
+	if err != nil {
+		return
+	}
+	q0 := f.imports[p0].name
+	verifAssert(q0 != "" && q0 != "_", "the snippet's reference is registered under a usable name")
+	// the File goes on: another package with possibly the same base name, then the first path again
+	a, _ := c08raw(Qual(p1, "Y"), f)
+	b, _ := c08raw(Qual(p0, "Z"), f)
+	verifAssert(b == q0+".Z", "the path keeps the name it had in the snippet")
+	verifAssert(len(a) > 2, "rendered")
+	if len(a) > 2 {
+		verifAssert(a[:len(a)-2] != q0, "and no other path takes that name")
+	}
+}
